@@ -6,6 +6,10 @@ package main
 // stepC20 (mon_step.go); data races by the -race build of the thorough tier (check.sh).
 
 import (
+	"time"
+
+	sdk "github.com/cosmos/cosmos-sdk/types"
+
 	"bufio"
 	"encoding/json"
 	"fmt"
@@ -142,5 +146,55 @@ func cmdDigest(args []string) {
 	}
 	for _, x := range d {
 		fmt.Println("D", x)
+	}
+}
+
+// wallClockProbe: block processing must depend on block time only, never on the wall clock.
+// A short history whose promotion windows meet at an instant a few seconds in the wall-clock
+// future is executed before that instant and replayed after it; the digests must agree.
+func wallClockProbe(a *App, mon *Mon, seed int64) {
+	edge := time.Now().UTC().Truncate(time.Second).Add(3 * time.Second)
+	p := baseParams()
+	p.MinDepositMultiple = 1
+	r := NewRun(a, "wall-clock-probe", seed, p, mon)
+	act := MakeActors()
+	act.FundAll(r, 1_000_000_000, 1_000_000, 3)
+	r.SetStartTime(edge.Add(-30 * time.Minute))
+	r.Begin()
+	s := &Sc{r: r, A: act, p: p}
+	pricing := fmt.Sprintf(`{"price":"100%s","promotions_by_time":[{"start_time":"%s","end_time":"%s","discount":"0.5"},{"start_time":"%s","end_time":"%s","discount":"0.1"}]}`,
+		denom, edge.Add(-time.Hour).Format(time.RFC3339), edge.Format(time.RFC3339), edge.Format(time.RFC3339), edge.Add(time.Hour).Format(time.RFC3339))
+	p1 := act.SignProv[0]
+	s.define("svc")
+	s.bind("svc", p1, act.Owners[0], 100000, pricing, 1)
+	id := s.call("svc", []sdk.AccAddress{p1}, act.Consumers[0], 1000, 1, false, true, 1, -1)
+	for b := 0; b < 8; b++ {
+		for _, rid := range s.pendingOf(id, p1) {
+			s.respond(rid, p1, 0)
+		}
+		switch b {
+		case 2:
+			r.Block(40 * time.Minute) // chain time jumps into the second window
+		case 5:
+			r.Block(2 * time.Hour) // and past both
+		default:
+			s.block()
+		}
+	}
+	s.done()
+	if d := time.Until(edge.Add(1500 * time.Millisecond)); d > 0 {
+		time.Sleep(d)
+	}
+	mon.eval("C20")
+	d, hp := replayDigests(r.hist)
+	if hp != "" {
+		mon.stats.Hits["harness/panic"]++
+		return
+	}
+	mon.run = r
+	mon.hit("C20", "replay-identical-across-wall-clock", "")
+	if at := firstDiff(r.digests, d); at >= 0 {
+		sc := &StepCtx{Idx: at, Step: &Step{Kind: "replay"}, Res: &StepResult{OK: true}, run: r}
+		mon.fail(sc, "C20", "replay-identical-across-wall-clock", stepKindOf(r.hist, at), "the same history executed before and after the wall-clock instant %s (a promotion boundary in its pricing) diverges at step %d: block processing reads the wall clock", edge.Format(time.RFC3339), at)
 	}
 }
